@@ -399,7 +399,9 @@ func (g *Gen) enterLoop(h *ssa.BasicBlock, li *loopInfo) {
 	// 2. havoc loop-modified state
 	st := entry.clone()
 	g.cur = st
+	g.cellMods, g.cellPaths = nil, nil
 	mods, all := g.loopModified(li)
+	cellMods, cellPaths := g.cellMods, g.cellPaths
 	if all {
 		g.havocAll(st, "loop")
 	} else {
@@ -419,6 +421,35 @@ func (g *Gen) enterLoop(h *ssa.BasicBlock, li *loopInfo) {
 				continue
 			}
 			oldT := g.heapGet(st, n)
+			if fs := cellMods[n]; fs != nil && !fs[-1] && g.cellT[n] != nil {
+				// a struct value of which the loop writes only some fields: the others keep their value
+				if _, ok := g.cellT[n].Underlying().(*types.Struct); ok {
+					term := oldT
+					seenPath := map[string]bool{}
+					for _, path := range cellPaths[n] {
+						key := ""
+						for _, ps := range path {
+							key += fmt.Sprintf("%d.", ps.I)
+						}
+						if seenPath[key] || len(path) == 0 {
+							continue
+						}
+						seenPath[key] = true
+						last := path[len(path)-1]
+						lt := last.T.Underlying().(*types.Struct).Field(last.I).Type()
+						fv := g.havocVal(lt, "loop.fld")
+						if fv.Addr != nil {
+							term = ""
+							break
+						}
+						term = g.define(n, g.heapSort[n], g.pathSet(term, path, fv.S))
+					}
+					if term != "" {
+						g.heapSet(st, n, term)
+						continue
+					}
+				}
+			}
 			nt := g.heapHavoc(st, n)
 			g.loopFrame(li, n, oldT, nt, entry, mods[n])
 		}
@@ -600,8 +631,12 @@ func (g *Gen) loopModified(li *loopInfo) (map[string][]ssa.Value, bool) {
 			f := st.Underlying().(*types.Struct).Field(x.Field)
 			// walk to the root to decide between heap field and cell path
 			root := ssa.Value(x)
+			topField := x.Field
+			var fullPath []pathStep
 			for {
 				if fa, ok := root.(*ssa.FieldAddr); ok {
+					topField = fa.Field
+					fullPath = append([]pathStep{{fa.X.Type().Underlying().(*types.Pointer).Elem(), fa.Field}}, fullPath...)
 					root = fa.X
 					continue
 				}
@@ -609,7 +644,22 @@ func (g *Gen) loopModified(li *loopInfo) (map[string][]ssa.Value, bool) {
 			}
 			if al, ok := root.(*ssa.Alloc); ok {
 				if _, isStruct := al.Type().Underlying().(*types.Pointer).Elem().Underlying().(*types.Struct); !isStruct || g.isCellAlloc(al) {
-					add(g.cellName(al), nil)
+					name := g.cellName(al)
+					add(name, nil)
+					if isStruct {
+						// remember which top-level field of the struct value is written
+						if g.cellMods == nil {
+							g.cellMods = map[string]map[int]bool{}
+						}
+						if g.cellMods[name] == nil {
+							g.cellMods[name] = map[int]bool{}
+						}
+						g.cellMods[name][topField] = true
+						if g.cellPaths == nil {
+							g.cellPaths = map[string][][]pathStep{}
+						}
+						g.cellPaths[name] = append(g.cellPaths[name], fullPath)
+					}
 					return
 				}
 			}
@@ -644,6 +694,7 @@ func (g *Gen) loopModified(li *loopInfo) (map[string][]ssa.Value, bool) {
 				return
 			}
 			add(g.cellName(x), nil)
+			g.markWholeCell(g.cellName(x))
 		case *ssa.Global:
 			v := g.globalVal(x)
 			add(v.Addr.Heap, nil)
@@ -675,6 +726,7 @@ func (g *Gen) loopModified(li *loopInfo) (map[string][]ssa.Value, bool) {
 				et := x.Type().Underlying().(*types.Pointer).Elem()
 				if g.isCellAlloc(x) {
 					add(g.cellName(x), nil)
+					g.markWholeCell(g.cellName(x))
 				} else if _, isStruct := et.Underlying().(*types.Struct); isStruct {
 					var hs []string
 					g.leafHeaps(et, &hs)
@@ -749,7 +801,21 @@ func (g *Gen) cellName(x *ssa.Alloc) string {
 	}
 	elem := x.Type().Underlying().(*types.Pointer).Elem()
 	g.heapDecl(name, g.sortOf(elem))
+	if g.cellT == nil {
+		g.cellT = map[string]types.Type{}
+	}
+	g.cellT[name] = elem
 	return name
+}
+
+func (g *Gen) markWholeCell(name string) {
+	if g.cellMods == nil {
+		g.cellMods = map[string]map[int]bool{}
+	}
+	if g.cellMods[name] == nil {
+		g.cellMods[name] = map[int]bool{}
+	}
+	g.cellMods[name][-1] = true
 }
 
 // callModifies lists heap variables a call may modify (coarsely: whole variables).
